@@ -38,6 +38,8 @@ def src(t, selfsrc='Self'):
     if k == 'string': return 'String'
     if k == 'strref': return "&'%s str" % t[1]
     if k == 'cowstr': return "Cow<'static, str>"
+    if k == 'cowref': return "Cow<'%s, str>" % t[1]
+    if k == 'innerlt': return "InnerLt<'%s>" % t[1]
     if k == 'vec': return 'Vec<%s>' % src(t[1], selfsrc)
     if k == 'opt': return 'Option<%s>' % src(t[1], selfsrc)
     if k == 'arr': return '[%s; %s]' % (src(t[1], selfsrc), t[2])
@@ -62,6 +64,7 @@ def type_name_model(t, selfsrc):
 
 def relife(t):
     if t[0] == 'strref': return ('strref', 'static')
+    if t[0] in ('cowref', 'innerlt'): return (t[0], 'static')
     if t[0] in ('vec', 'opt', 'phantom', 'box', 'constarr'): return (t[0], relife(t[1])) + t[2:]
     if t[0] == 'arr': return ('arr', relife(t[1]), t[2])
     if t[0] == 'tup': return ('tup', tuple(relife(x) for x in t[1]))
@@ -79,6 +82,7 @@ def subst(t, env):
     if k == 'tup': return ('tup', tuple(subst(x, env) for x in t[1]))
     if k == 'named': return ('named', t[1], tuple(subst(x, env) for x in t[2]))
     if k == 'strref': return ('strref', 'static')
+    if k in ('cowref', 'innerlt'): return (k, 'static')
     return t
 
 
@@ -106,6 +110,8 @@ def vals(t):
     if k == 'bool': return [('false', 'false'), ('true', 'true')]
     if k == 'string': return [('String::new()', '""'), ('String::from("é")', '"é"')]
     if k == 'strref': return [('"a"', '"a"'), ('""', '""')]
+    if k == 'cowref': return [("Cow::<'static, str>::Borrowed(\"é\")", 'C{_:"é"}')]
+    if k == 'innerlt': return [('InnerLt("a")', 'C{_:"a"}')]
     if k == 'cowstr': return [("Cow::<'static, str>::Borrowed(\"é\")", 'C{_:"é"}'), ("Cow::<'static, str>::Owned(String::new())", 'C{_:""}')]
     if k == 'vec':
         e = vals(t[1])
@@ -556,6 +562,10 @@ def generic_shapes(thorough):
     add(D('enum', variants=[V('A', 'tuple', tuple_members([SELFVEC])), V('B', 'tuple', tuple_members([PARAM('T')]))], generics=[('T', None, None)], inst=u8), 'generic self-recursive enum')
     add(D('struct', 'named', named_members([('strref', 'a'), PARAM('T')]), generics=[('T', None, None)], lifetime=True, inst=u8), "generic with lifetime {&'a str, T}")
     add(D('struct', 'named', named_members([('strref', 'a')]), lifetime=True, inst=u8), "lifetime only {&'a str}")
+    # lifetimes as generic ARGUMENTS of path types (not only on references)
+    add(D('struct', 'named', named_members([('cowref', 'a'), ('strref', 'a')]), lifetime=True, inst=u8), "lifetime as generic argument {Cow<'a, str>, &'a str}")
+    add(D('struct', 'named', named_members([('innerlt', 'a'), VEC(('strref', 'a')), OPT(('innerlt', 'a'))]), lifetime=True, inst=u8), "lifetime as generic argument {InnerLt<'a>, Vec<&'a str>, Option<InnerLt<'a>>}")
+    add(D('enum', variants=[V('A', 'tuple', tuple_members([('cowref', 'a')])), V('B', 'named', named_members([TUP(('strref', 'a'), ('innerlt', 'a'))]))], lifetime=True, inst=u8), "enum with lifetimes as generic arguments")
     add(D('struct', 'named', named_members([('constarr', PARAM('T'))]), generics=[('T', None, None)], constp=True, inst=u8), 'const parameter {[T; N]}')
     add(D('struct', 'named', named_members([('constarr', I('u8'))]), constp=True, inst=u8), 'const parameter only {[u8; N]}')
     add(D('struct', 'named', named_members([PARAM('T')]), generics=[('T', None, 'u8')], inst=u8), 'default parameter <T = u8>')
